@@ -1482,6 +1482,8 @@ func (be *boundsEngine) proveBySplit(p *prover, g ineq, at ssa.Instruction) bool
 		if val == nil {
 			return false
 		}
+		// what was stored is, on this path, one alternative of a join (a result variable of an inlined helper)
+		val = resolvePhiOnPath(val, cp.Blocks)
 		var sub lin
 		if isLen {
 			sub = p.lenOf(val, 0)
